@@ -182,6 +182,8 @@ struct ScriptNet {
     v6: bool,
     sends: VecDeque<char>,
     dt: u64,
+    /// the wall clock steps *back* by this much during the wait (an NTP correction, a VM resume)
+    back: u64,
     recv: Recv,
     log: Vec<(Probe, char)>,
 }
@@ -202,7 +204,7 @@ impl Network for ScriptNet {
         }
     }
     fn recv_probe(&mut self) -> Result<Option<Response>, Error> {
-        clock::advance(self.dt);
+        if self.back > 0 { clock::set(clock::now_ns().saturating_sub(self.back)); } else { clock::advance(self.dt); }
         match &self.recv {
             Recv::None => Ok(None),
             Recv::Fatal => Err(Error::IoError(io_err())),
@@ -369,7 +371,7 @@ pub fn run_case_plan(run: &mut Run, rng: &mut Rng, cfg: &Cfg, iters: usize, faul
     let mut st = VerifState::new(real);
     run.op(cfg.line(t0), "ok".into());
     run.count(&format!("cfg:{}{}{}", cfg.proto, if cfg.v6 { 6 } else { 4 }, cfg.strat));
-    let mut net = ScriptNet { v6: cfg.v6, sends: VecDeque::new(), dt: 0, recv: Recv::None, log: vec![] };
+    let mut net = ScriptNet { v6: cfg.v6, sends: VecDeque::new(), dt: 0, back: 0, recv: Recv::None, log: vec![] };
     let forced_path = FORCED_PATH.with(|c| c.take());
     let mut path_len = rng.range(1, u64::from(cfg.max) + 3) as u8;
     // route changes: the path length may change between rounds (C10: growing / shrinking paths)
@@ -697,6 +699,60 @@ pub fn run_case_plan(run: &mut Run, rng: &mut Rng, cfg: &Cfg, iters: usize, faul
 /// C03, last sentence: the identifiers the CLI gives the tracers of one invocation are non-zero (zero
 /// is accepted by every tracer) and pairwise distinct, for every process id, without overflow.
 /// The real assignment (trippy-tui `app::trace_identifier`, through its verif hook) against the model.
+/// The wall clock is not monotonic: implementation-only runs (the model's time only moves forward) in which
+/// the clock steps backwards during some waits — between the sending of a probe and its answer, across a round
+/// boundary, before the first response.  Nothing may panic or fail.
+fn clock_backsteps(run: &mut Run, rng: &mut Rng, thorough: bool) {
+    for case in 0..if thorough { 400 } else { 60 } {
+        let mut cfg = gen_cfg(rng, thorough);
+        while !cfg.builder_ok() { cfg = gen_cfg(rng, thorough); }
+        cfg.max_rounds = None;
+        let t0 = 5_000_000_000 + rng.below(1000) * 1000;
+        clock::enable(t0);
+        let real = cfg.real();
+        let published = std::cell::Cell::new(0usize);
+        let strategy = Strategy::new(&real, |_r: &Round<'_>| published.set(published.get() + 1));
+        let mut st = VerifState::new(real);
+        let mut net = ScriptNet { v6: cfg.v6, sends: VecDeque::new(), dt: 0, back: 0, recv: Recv::None, log: vec![] };
+        let path_len = rng.range(1, u64::from(cfg.max) + 1) as u8;
+        let mut last_pub_iter = 0usize;
+        for it in 0..200usize {
+            net.sends.clear();
+            net.log.clear();
+            net.back = if rng.chance(1, 4) { *rng.pick(&[1u64, 1000, cfg.grace + 1, cfg.max_round + 1, 3_000_000_000]) } else { 0 };
+            net.dt = *rng.pick(&[1u64, cfg.grace + 1, cfg.min_round + 1, cfg.max_round / 3 + 1, cfg.max_round + 1]);
+            let aw = awaited(&st);
+            net.recv = if !aw.is_empty() && rng.chance(1, 2) {
+                let p = rng.pick(&aw).clone();
+                let is_t = p.ttl.0 >= path_len;
+                // the answer is time-stamped by the (possibly stepped-back) clock after the wait
+                let recv_at = if net.back > 0 { clock::now_ns().saturating_sub(net.back) } else { clock::now_ns() + net.dt };
+                Recv::Resp(genuine(&cfg, &p, if is_t { cfg.target } else { 1000 + u64::from(p.ttl.0) }, is_t, recv_at, rng))
+            } else { Recv::None };
+            let desc = format!("{} | case {case} iteration {it}: clock {} -> {} during the wait", cfg.line(t0), clock::now_ns(),
+                if net.back > 0 { format!("back by {}", net.back) } else { format!("forward by {}", net.dt) });
+            crate::util::inflight(&desc);
+            let before = published.get();
+            let res = guarded(|| -> Result<(), Error> {
+                strategy.verif_send_request(&mut net, &mut st)?;
+                strategy.verif_recv_response(&mut net, &mut st)?;
+                strategy.verif_update_round(&mut st);
+                Ok(())
+            });
+            match res {
+                Err(p) => { run.fail("c09-clock-backstep-panic", format!("{desc} ({p})")); break; }
+                Ok(Err(e)) => { run.fail("c09-spurious-error", format!("{desc} [{e}]")); break; }
+                Ok(Ok(())) => {}
+            }
+            if published.get() > before { last_pub_iter = it; }
+            run.count("c09:backstep-iterations");
+        }
+        let _ = last_pub_iter;
+        if published.get() > 0 { run.count("c09:backstep-cases-with-rounds"); }
+        clock::disable();
+    }
+}
+
 fn trace_ids(run: &mut Run, rng: &mut Rng, thorough: bool) {
     let mut pids: Vec<u16> = vec![0, 1, 2, 1023, 1024, 32767, 32768, 65000, 65530, 65531, 65532, 65533, 65534];
     if thorough { pids = (0..=65534u16).collect(); } else { for _ in 0..60 { pids.push(rng.below(65535) as u16); } }
@@ -723,6 +779,7 @@ pub fn run(rng: &mut Rng, thorough: bool, corpus: &[String]) -> Run {
     let mut run = Run::new();
     let _ = corpus;
     trace_ids(&mut run, rng, thorough);
+    clock_backsteps(&mut run, rng, thorough);
     let cases = if thorough { 120_000 } else { 1500 };
     for i in 0..cases {
         let mut cfg = gen_cfg(rng, thorough);
